@@ -108,7 +108,7 @@ enum { R_ACCEPT, R_ERR };
 typedef struct { int kind; long n; int err; char tok[24]; } sendres_t;
 typedef struct
 {
-  int created, console;
+  int created, console, telnet;
   object_t *ob;
   int fd[2];
   int userfd;			/* fd watched by the interposers; -1 once the connection is gone */
@@ -147,12 +147,14 @@ static ssize_t scripted_io (int k, const void *buf, size_t len)
   sendres_t r;
   int save = c14_cur;
   ssize_t rc;
-  static long calls = 0;
+  static long calls = 0, volume = 0;
   c14_cur = k;
-  if (++calls > 20000)
+  volume += (long) len;
+  if (++calls > 20000 || volume > (4L << 20))
     {
-      /* a broken send loop (e.g. message_length gone negative) would fill the disk before the case alarm fires */
-      out ("crash send-loop: more than 20000 send calls in one case");
+      /* a broken send loop (e.g. message_length gone negative or never decreasing) would fill the disk - and the memory of
+       * the check that reads the trace - before the case alarm fires: no legitimate case offers more than 4 MiB */
+      out ("crash send-loop: more than 20000 send calls or 4 MiB offered in one case");
       _exit (0);
     }
   if (u->qhead < u->qlen)
@@ -317,6 +319,7 @@ static void c14_setup (int k, int kind)	/* 0 ascii, 1 telnet, 2 console */
       memset (&addr, 0, sizeof addr);
       addr.sin_family = AF_INET;
       port.kind = kind == 1 ? PORT_TELNET : PORT_ASCII;
+      u->telnet = kind == 1;
       port.port = 4000;
       port.fd = INVALID_SOCKET_FD;
       VH_TRY (econ)
@@ -440,7 +443,7 @@ static int c14_cmd (char *line)
 #define IS(s) (clen == strlen (s) && !strncmp (line, s, clen))
   if (!(IS ("connect") || IS ("sendres") || IS ("write") || IS ("vwrite") || IS ("flush") || IS ("eflush") || IS ("cycle")
         || IS ("wready") || IS ("flushall") || IS ("close") || IS ("peerclose") || IS ("peerfin") || IS ("dump")
-        || IS ("snoop") || IS ("unsnoop") || IS ("react")))
+        || IS ("snoop") || IS ("unsnoop") || IS ("react") || IS ("input")))
     return 0;
   while (arg && *arg == ' ')
     arg++;
@@ -587,6 +590,34 @@ static int c14_cmd (char *line)
           VH_CATCH (econ)
             out ("lpcerr");
           VH_END
+        }
+    }
+  else if (IS ("input"))
+    {
+      /* the peer of a telnet user sends bytes: one poll + process_io pass (get_user_data -> copy_chars -> replies).
+       * Input framing is C13's business: what copy_chars stored into the command buffer is discarded afterwards. */
+      global = 1;
+      if (u->telnet && u->ob->interactive && u->peer_open && !c14_reactive)
+        {
+          size_t n = 0;
+          unsigned char *bytes = 0;
+          const char *h = arg ? arg : "-";
+          if (strcmp (h, "-"))
+            {
+              n = strlen (h) / 2;
+              bytes = (unsigned char *) malloc (n + 1);
+              for (size_t i = 0; i < n; i++)
+                bytes[i] = (unsigned char) (hexval (h[2 * i]) * 16 + hexval (h[2 * i + 1]));
+            }
+          if (n)
+            (void) !syscall (SYS_write, u->fd[1], bytes, n);
+          free (bytes);
+        }
+      poll_and_process ();
+      if (u->ob->interactive)
+        {
+          u->ob->interactive->text_start = u->ob->interactive->text_end = 0;
+          u->ob->interactive->iflags &= ~CMD_IN_BUF;
         }
     }
   else if (IS ("peerclose") || IS ("peerfin"))
